@@ -5,21 +5,9 @@
 //!   rscel-verif child <json>                                      (internal, isolated runs)
 //!   rscel-verif list
 
-mod astn;
-mod bcv;
-mod child;
-mod engine;
-mod expr;
-mod g;
-mod gen;
-mod model;
-mod props;
-mod rec;
-mod run;
-mod sqlp;
-mod val;
 
-use engine::{Acc, Opts, Report, Tier};
+use rscel_verif::{child, engine, props};
+use rscel_verif::engine::{Acc, Opts, Report, Tier};
 use std::time::{Duration, Instant};
 
 fn arg_val(args: &[String], name: &str) -> Option<String> {
